@@ -12,9 +12,12 @@ package c04
 import (
 	"fmt"
 	"math/rand"
+	"reflect"
+	"sort"
 	"strconv"
 	"strings"
 	"sync"
+	"unsafe"
 
 	"verifharness/core"
 
@@ -301,13 +304,13 @@ func doIndex(c *core.Ctx, n *core.N, script []string) {
 	if err != nil {
 		panic(err)
 	}
-	applyScript(t, script)
+	log := applyScript(t, script)
 	after, wf := core.Alpha(t)
 	if !wf.OK() && !orientationOnly(wf) {
 		// not this property's business (C03): the case is reported as skipped.  A heap whose only
 		// problem is the orientation of branches still has a tree shape: it goes on, and the
 		// enumerations / indexes computed from it are judged against that shape.
-		c.Emit("C04.index", n.Dump(), core.StrList(script), "malformed", core.Escape(strings.Join(wf.Problems, "; ")), "", "", "")
+		c.Emit("C04.index", n.Dump(), core.StrList(script), "malformed", core.Escape(strings.Join(wf.Problems, "; ")), core.StrList(log), "", "", "")
 		return
 	}
 	var rerr error
@@ -321,11 +324,11 @@ func doIndex(c *core.Ctx, n *core.N, script []string) {
 			rerr = t.ReinitIndexes()
 		}
 	}); p {
-		c.Emit("C04.index", n.Dump(), core.StrList(script), "panic:"+core.Escape(msg), after.Dump(), "", "", "")
+		c.Emit("C04.index", n.Dump(), core.StrList(script), "panic:"+core.Escape(msg), after.Dump(), "", "", "", "")
 		return
 	}
 	if rerr != nil {
-		c.Emit("C04.index", n.Dump(), core.StrList(script), "err", after.Dump(), "", "", "")
+		c.Emit("C04.index", n.Dump(), core.StrList(script), "err", after.Dump(), "", "", "", "")
 		return
 	}
 	// names by rank
@@ -353,31 +356,31 @@ func doIndex(c *core.Ctx, n *core.N, script []string) {
 		}
 		fmt.Fprintf(&b, "%s:%d:%d:%s:%d;", bitString(ea.e, len(tips)), ea.e.NumTipsLeft(), ea.e.NumTipsRight(), tds, ea.e.HashCode())
 	}
-	// the enumerations agree with the alpha walk: Edges() is the pre-order list, InternalEdges() /
-	// TipEdges() its sub-lists by kind of lower node (positions in these lists address the records)
+	// the three enumerations as positions in the alpha walk (judged by the driver against the dump)
 	walk := walkEdges(t)
-	same := func(got []*tree.Edge, keep func(ea edgeAt) bool) byte {
-		i := 0
-		for _, ea := range walk {
-			if !keep(ea) {
-				continue
-			}
-			if i >= len(got) || got[i] != ea.e {
-				return '0'
-			}
-			i++
-		}
-		if i != len(got) {
-			return '0'
-		}
-		return '1'
+	pos := map[*tree.Edge]int{}
+	for i, ea := range walk {
+		pos[ea.e] = i
 	}
-	enum := string([]byte{
-		same(t.Edges(), func(edgeAt) bool { return true }),
-		same(t.InternalEdges(), func(ea edgeAt) bool { return !ea.below.Tip() }),
-		same(t.TipEdges(), func(ea edgeAt) bool { return ea.below.Tip() }),
-	})
-	c.Emit("C04.index", n.Dump(), core.StrList(script), "ok", after.Dump(), rk, b.String(), enum)
+	list := func(tag string, got []*tree.Edge) string {
+		var sb strings.Builder
+		sb.WriteString(tag)
+		for _, e := range got {
+			if p, ok := pos[e]; ok {
+				fmt.Fprintf(&sb, "%d,", p)
+			} else {
+				sb.WriteString("-1,")
+			}
+		}
+		return sb.String()
+	}
+	enum := list("", t.Edges()) + ";" + list("", t.InternalEdges()) + ";" + list("", t.TipEdges()) + ";"
+	// the tree itself must not have been changed by the re-indexing
+	after2 := "malformed"
+	if a2, wf2 := core.Alpha(t); wf2.OK() || orientationOnly(wf2) {
+		after2 = a2.Dump()
+	}
+	c.Emit("C04.index", n.Dump(), core.StrList(script), "ok", after.Dump(), rk, b.String(), enum, after2)
 }
 
 // orientationOnly: every problem of the heap is a branch not oriented away from the root.
@@ -925,8 +928,23 @@ func doEI(c *core.Ctx, ns []*core.N, cp uint64, lf string, ops []string) {
 				mx, _ := strconv.Atoi(f[1])
 				var b strings.Builder
 				b.WriteString("E")
-				// EdgeIndex.Edges returns unexported fields only: the observable part is the number of entries
-				b.WriteString(strconv.Itoa(len(ix.Edges(mn, mx))))
+				// EdgeIndex.Edges returns values with unexported fields only: their number is the public
+				// observation; the harness also reads the two pointers by reflection (key branch, record)
+				kvs := ix.Edges(mn, mx)
+				b.WriteString(strconv.Itoa(len(kvs)))
+				var ents []string
+				for _, kv := range kvs {
+					rv := reflect.ValueOf(kv).Elem()
+					e := (*tree.Edge)(unsafe.Pointer(rv.FieldByName("key").Pointer()))
+					v := (*tree.EdgeIndexInfo)(unsafe.Pointer(rv.FieldByName("val").Pointer()))
+					id, ok := ids[e]
+					if !ok {
+						id = "?"
+					}
+					ents = append(ents, fmt.Sprintf("%s_%d_%s", id, v.Count, core.Rat(v.Len)))
+				}
+				sort.Strings(ents)
+				b.WriteString(":" + strings.Join(ents, "|"))
 				replies = append(replies, b.String())
 			}
 		}
@@ -1276,7 +1294,7 @@ func Replay(c *core.Ctx, lines []string) {
 	}
 }
 
-// raceCases: PutValue / Value / KeyValues from several goroutines on one map (binary built with -race in
+// raceCases: PutValue / Value / KeyValues / Keys from several goroutines on one map (binary built with -race in
 // the thorough tier: a report of the race detector makes the harness exit with an error).  The keys are
 // distinct, so the final content does not depend on the schedule: it is emitted as an ordinary C04.hm case.
 func raceCases(c *core.Ctx, withKeyValues bool) {
@@ -1299,8 +1317,9 @@ func raceCases(c *core.Ctx, withKeyValues bool) {
 					m.Value(&key{a, 1, mode})
 					m.Value(&key{(w+1)%workers*1000 + i, 2, mode})
 					if withKeyValues && i%16 == 0 {
-						// KeyValues / Keys take no lock (finding reported in round 2): only with -arg race-kv
+						// KeyValues / Keys take the read lock since /repo ade4233 (finding of round 2)
 						m.KeyValues()
+						m.Keys()
 					}
 				}
 			}(w)
@@ -1342,8 +1361,8 @@ func raceCases(c *core.Ctx, withKeyValues bool) {
 
 // Run generates the cases of C04.
 func Run(c *core.Ctx) {
-	if c.Arg == "race" || c.Arg == "race-kv" {
-		raceCases(c, c.Arg == "race-kv")
+	if c.Arg == "race" || c.Arg == "race-nokv" {
+		raceCases(c, c.Arg == "race")
 		return
 	}
 	if c.Arg != "" {
